@@ -724,9 +724,7 @@ def run(ctx):
     if ctx.quick:
         ss = rng.sample(ss, 1200)
         rs = rng.sample(rs, 1200)
-    else:
-        ss = rng.sample(ss, 7000)
-        rs = rng.sample(rs, 7000)
+    # thorough: the complete grids
     specs = []
     for kind, items in (("send", ss), ("recv", rs), ("stale", stale_specs(ctx))):
         k2 = "recv" if kind == "stale" else kind
